@@ -5,7 +5,7 @@
 # 3. applies the patch to /repo, runs ./check <property>, reverts /repo
 set -u
 id="$1"; prop="$2"; src="$3"; pkg="$4"; run="${5:-.}"
-if [ -n "$(git -C /repo status --porcelain --untracked-files=no)" ]; then echo "refusing: /repo has uncommitted changes (commit contract edits first; this script reverts the working tree)"; exit 2; fi
+if [ "${SEED_SCRATCH:-0}" != "1" ] && [ -n "$(git -C /repo status --porcelain --untracked-files=no)" ]; then echo "refusing: /repo has uncommitted changes (commit contract edits first; this script reverts the working tree)"; exit 2; fi
 . /verif/env.sh
 dst=/verif/seeded/$id
 mkdir -p "$dst"
@@ -26,6 +26,12 @@ if [ "${SEED_FULL:-0}" = "1" ]; then
   (cd "$wt" && unshare -n sh -c "ip link set lo up; exec \"\$@\"" -- go test -count=1 -vet=off -timeout 25m $pk 2>&1 | tail -5) | tee "$dst/existing_with.txt"
 fi
 git -C /repo worktree remove --force "$wt"
+if [ "${SEED_SCRATCH:-0}" = "1" ]; then
+  # triage without touching /repo: the check runs on a scratch copy with the patch (the recorded result is taken later by tools/recheck.sh on /repo itself)
+  echo "--- check $prop on a scratch copy with the patch"
+  (cd /verif && tools/runmutant.sh "$dst/patch.diff" "$prop" 2>&1 | grep -E "^(VIOLATION|KNOWN|UNDEC|BROKEN|property|  failed)" | cut -c1-300) | tee "$dst/check_with.txt"
+  exit 0
+fi
 echo "--- check $prop with the patch applied to /repo"
 git -C /repo apply "$dst/patch.diff" || { echo "patch does not apply to /repo"; exit 2; }
 (cd /verif && ./check "$prop" --no-evidence 2>&1 | grep -E "^(VIOLATION|KNOWN|UNDEC|BROKEN|property|  failed)" | cut -c1-300) | tee "$dst/check_with.txt"
